@@ -52,7 +52,7 @@ def run(tier, out):
         tlc.stage_specs(wd)
         ns = efx.load()
         base = seed_from_env() * 100000
-        n_models = 5 if tier == "quick" else 60
+        n_models = 5 if tier == "quick" else 20
         per_model = 6 if tier == "quick" else 10 ** 6
         events, tid = [], 0
         covered = {}
@@ -65,7 +65,7 @@ def run(tier, out):
 
         plan = [(seed, False) for seed in range(base, base + n_models)]
         for seed in range(base + 1000, base + 1400):       # plus systems in which two jobs share a storage
-            if len(plan) >= n_models + (2 if tier == "quick" else 20):
+            if len(plan) >= n_models + (2 if tier == "quick" else 8):
                 break
             if storage_users(gen.random_model(random.Random(seed))):
                 plan.append((seed, True))
